@@ -9,8 +9,26 @@ pub use core::*;
 #[cfg(feature = "compiled_data")]
 use crate::tzdb::FsTzdbProvider;
 #[cfg(feature = "compiled_data")]
-use std::sync::{LazyLock, Mutex};
+use std::sync::{LazyLock, Mutex, MutexGuard, PoisonError};
+
+/// The process-wide time zone provider behind the `compiled_data` convenience methods.
+///
+/// A panic while the provider is held poisons the inner mutex. The provider only caches parsed
+/// time zone files, which a panic cannot leave half-updated, so the poison flag carries no
+/// information and `lock` hands out the provider regardless: one failed call must not make
+/// every later call fail.
+#[cfg(feature = "compiled_data")]
+pub struct TzProviderLock(Mutex<FsTzdbProvider>);
 
 #[cfg(feature = "compiled_data")]
-pub static TZ_PROVIDER: LazyLock<Mutex<FsTzdbProvider>> =
-    LazyLock::new(|| Mutex::new(FsTzdbProvider::default()));
+impl TzProviderLock {
+    pub fn lock(
+        &self,
+    ) -> Result<MutexGuard<'_, FsTzdbProvider>, PoisonError<MutexGuard<'_, FsTzdbProvider>>> {
+        Ok(self.0.lock().unwrap_or_else(PoisonError::into_inner))
+    }
+}
+
+#[cfg(feature = "compiled_data")]
+pub static TZ_PROVIDER: LazyLock<TzProviderLock> =
+    LazyLock::new(|| TzProviderLock(Mutex::new(FsTzdbProvider::default())));
